@@ -35,13 +35,19 @@ MANIFEST = {
             "|PS| >= 8, PS non-zero (decrypt_valid); for every other EM returns g(kdk) for one function g fixed before the private-key "
             "result is known, of length <= k-11 (decrypt_invalid_uniform, synth_length_bound); processClientKeyExchange always returns "
             "48 bytes, the decrypted value iff 48 bytes with client-hello or negotiated version, else the random substitute, with no "
-            "exception (premaster_substitution_total, premaster_independent_of_defect). Tie: correspondence model vs RSAKey.decrypt on "
+            "exception (premaster_substitution_total, premaster_independent_of_defect); the server path after ClientKeyExchange "
+            "(Tls.RsaServer: CertificateVerify, master secret, ChangeCipherSpec, Finished under the derived keys, record-layer "
+            "exception -> alert mapping, abstract PRF / record protection) emits the same trace for any two rejected payloads "
+            "(server_wire_independent_of_defect), differs from the valid run only from the Finished check on and never alerts "
+            "earlier because of the premaster (server_differs_from_valid_only_at_finished, no_early_alert; SSLv3 with client "
+            "certificate excepted: CertificateVerify signs the master secret there). Tie: correspondence model vs RSAKey.decrypt on "
             "real keys (512..2048 bit incl. odd sizes) over all message lengths, every padding-defect class, boundary separators, "
             "c >= n, wrong lengths, random ciphertexts; processClientKeyExchange vs model; independent re-derivation of the synthetic "
             "message; server-level loopback handshakes comparing the server's wire trace across malformation classes for SSLv3..TLS1.2.",
     "note": "Trusted: Lean kernel (axioms propext, Classical.choice, Quot.sound), the correspondence harness, hashlib/hmac/pow of CPython. "
             "HMAC is an arbitrary function with 32-byte output; key size 11 <= k < 65536 bytes. The server flow after ClientKeyExchange "
-            "is not modelled in Lean; it is observed on the real implementation (trace equality across classes). Timing is not modelled "
+            "is modelled for one message per record (no fragment reassembly, heartbeat, renegotiation branches) and tied to the observed "
+            "loopback traces (records consumed counted at the record layer). Timing is not modelled "
             "(the code itself says CPython is not constant time).",
     "technique": "Lean 4 proof over a code-mirroring model; differential correspondence model vs implementation; independent reference "
                  "oracle; differential wire traces across malformation classes",
@@ -783,12 +789,13 @@ class _Sock(object):
     def __init__(self, inbuf, outbuf):
         self.inbuf = inbuf
         self.outbuf = outbuf
-        self.sent = []          # (bytes, number of bytes this side had received when sending)
+        self.sent = []          # (bytes, number of bytes this side had received when sending, records consumed or None)
         self.received = 0
+        self.consumed = None    # callable: records the TLS record layer has consumed (exact), when available
 
     def send(self, b):
         self.outbuf.extend(b)
-        self.sent.append((bytes(b), self.received))
+        self.sent.append((bytes(b), self.received, None if self.consumed is None else self.consumed()))
         return len(b)
 
     def sendall(self, b):
@@ -826,6 +833,19 @@ def server_creds(ctx):
         x = X509()
         x.parse(f.read())
     with open(os.path.join(ctx.repo, "tests", "serverX509Key.pem")) as f:
+        key = parsePEMKey(f.read(), private=True, implementations=["python"])
+    return X509CertChain([x]), key
+
+
+def client_creds(ctx):
+    import os
+    from tlslite.x509 import X509
+    from tlslite.x509certchain import X509CertChain
+    from tlslite.utils.keyfactory import parsePEMKey
+    with open(os.path.join(ctx.repo, "tests", "clientX509Cert.pem")) as f:
+        x = X509()
+        x.parse(f.read())
+    with open(os.path.join(ctx.repo, "tests", "clientX509Key.pem")) as f:
         key = parsePEMKey(f.read(), private=True, implementations=["python"])
     return X509CertChain([x]), key
 
@@ -899,7 +919,7 @@ MALFORMED = ["first-byte", "second-byte-1", "second-byte-0", "second-byte-3", "p
              "random-ciphertext"]
 
 
-def handshake_trace(ctx, creds, client_max, server_ver, cipher, cls, fixed=None):
+def handshake_trace(ctx, creds, client_max, server_ver, cipher, cls, fixed=None, cert=False):
     """run one loopback handshake; returns canonical observation dict"""
     import tlslite.keyexchange as kx
     from tlslite.tlsconnection import TLSConnection
@@ -917,6 +937,24 @@ def handshake_trace(ctx, creds, client_max, server_ver, cipher, cls, fixed=None)
         st.maxVersion = vmax
         st.cipherNames = [cipher]
         return st
+    # exact count of the records the server's record layer has consumed (the socket is read through a 4 kB buffer,
+    # so bytes received say little): wrap recvRecord of this connection object
+    rl = getattr(conn_s, "_recordLayer", None)
+    if rl is not None and hasattr(rl, "recvRecord"):
+        nrec = [0]
+        orig_recv = rl.recvRecord
+
+        def counting_recv():
+            try:
+                for r in orig_recv():
+                    if isinstance(r, tuple):
+                        nrec[0] += 1
+                    yield r
+            except Exception:
+                nrec[0] += 1          # the record was read and rejected
+                raise
+        rl.recvRecord = counting_recv
+        ss.consumed = lambda: nrec[0]
     sent = {}
     orig = kx.RSAKeyExchange.processServerKeyExchange
 
@@ -933,8 +971,14 @@ def handshake_trace(ctx, creds, client_max, server_ver, cipher, cls, fixed=None)
     kx.RSAKeyExchange.processServerKeyExchange = patched
     res = {}
     try:
-        gens = {"client": conn_c.handshakeClientCert(settings=settings(server_ver, client_max), async_=True),
-                "server": conn_s.handshakeServerAsync(certChain=chain, privateKey=key, settings=settings(server_ver, server_ver))}
+        ckw, skw = {}, {}
+        if cert:
+            cchain, ckey = client_creds(ctx)
+            ckw = {"certChain": cchain, "privateKey": ckey}
+            skw = {"reqCert": True}
+        gens = {"client": conn_c.handshakeClientCert(settings=settings(server_ver, client_max), async_=True, **ckw),
+                "server": conn_s.handshakeServerAsync(certChain=chain, privateKey=key, settings=settings(server_ver, server_ver),
+                                                      **skw)}
         idle = 0
         while gens and idle < 8:
             for name in ("client", "server"):
@@ -954,23 +998,69 @@ def handshake_trace(ctx, creds, client_max, server_ver, cipher, cls, fixed=None)
     finally:
         kx.RSAKeyExchange.processServerKeyExchange = orig
     # canonical server trace: per emitted record (type, length | alert level+description, client records consumed so far)
-    client_stream = b"".join(x for x, _ in cs.sent)
+    client_stream = b"".join(x[0] for x in cs.sent)
     ends = [e for (_, _, e, _) in _records(client_stream)]
     trace = []
+    enc_flags = []
     encrypted = False
-    for chunk, got in ss.sent:
-        consumed = len([e for e in ends if e <= got])
+    exact = all(x[2] is not None for x in ss.sent)
+    for chunk, got, cnt in ss.sent:
+        consumed = cnt if exact else len([e for e in ends if e <= got])
         for (t, ln, _, body) in _records(chunk):
             if t == 21 and not encrypted and ln == 2:
                 trace.append(["alert", body[0], body[1], consumed])
             else:
                 trace.append([t, ln, consumed])
+            enc_flags.append(encrypted)
             if t == 20:
                 encrypted = True
+    # which client record carries ClientKeyExchange (cleartext handshake record starting with type 16)
+    cke_index = None
+    for i, (t, ln, _, body) in enumerate(_records(client_stream)):
+        if t == 20:
+            break
+        if t == 22 and ln > 0 and body[0] == 16:
+            cke_index = i + 1
+            break
     return {"server": list(res.get("server", ("none",))), "client": list(res.get("client", ("none",))), "trace": trace,
             "client_records": len(ends), "server_closed": bool(conn_s.closed),
             "server_resumable": bool(conn_s.session is not None and conn_s.session.resumable),
-            "sent": sent}
+            "sent": sent, "enc_flags": enc_flags, "cke_index": cke_index if exact else None, "ems": bool(conn_s.extendedMasterSecret),
+            "client_version": list(client_max)}
+
+
+def model_server_line(ctx, o, ver, cert, nums, rand):
+    """request line for the Lean server model and the observed post-ClientKeyExchange behaviour in its notation"""
+    if o.get("cke_index") is None or "enc" not in o["sent"]:
+        return None
+    enc = bytes.fromhex(o["sent"]["enc"])
+    dec = ref_decrypt(nums, enc)
+    cv = o["client_version"]
+    line = "srv %d %d %d %d 1 %d %d %s %s %s %d" % (ver[0], ver[1], 1 if o["ems"] else 0, 1 if cert else 0, cv[0], cv[1], hx(rand),
+                                                   "none" if dec is None else hx(dec), hx(bytes.fromhex(o["sent"]["pms"])),
+                                                   o["cke_index"])
+    ents = []
+    for e, encf in zip(o["trace"], o["enc_flags"]):
+        if e[-1] < o["cke_index"]:
+            continue
+        if e[0] == "alert":
+            ents.append("alert:%d:%d@%d" % (e[1], e[2], e[3]))
+        elif encf:
+            ents.append("%d:e@%d" % (e[0], e[2]))
+        else:
+            ents.append("%d:p%d@%d" % (e[0], e[1], e[2]))
+    sv = o["server"]
+    if sv == ["done"]:
+        out = "done"
+    elif sv[0] == "TLSLocalAlert":
+        out = "localAlert:%s" % sv[1]
+    elif sv[0] == "TLSRemoteAlert":
+        out = "remoteAlert:%s:%s" % (sv[2], sv[1])
+    elif sv == ["stalled"]:
+        out = "wouldBlock"
+    else:
+        out = "exception:" + str(sv[0])
+    return line, (",".join(ents) if ents else "-") + " " + out
 
 
 def server_cases(ctx):
@@ -987,13 +1077,25 @@ def server_cases(ctx):
             configs.append((ver, ver, "3des"))
             configs.append((ver, ver, "aes256"))
         configs.append(((3, 3), (3, 3), "aes256gcm"))
-    for client_max, ver, cipher in configs:
-        cfg = {"client_max": list(client_max), "version": list(ver), "cipher": cipher}
+    configs = [c + (False,) for c in configs]
+    # with a client certificate (CertificateVerify between ClientKeyExchange and ChangeCipherSpec)
+    for ver in ((3, 0), (3, 1), (3, 3)) if not ctx.thorough() else ((3, 0), (3, 1), (3, 2), (3, 3)):
+        configs.append((ver, ver, "aes128", True))
+    srv_nums = pem_key_numbers(ctx)
+    model_lines, model_meta = [], []
+    for client_max, ver, cipher, cert in configs:
+        cfg = {"client_max": list(client_max), "version": list(ver), "cipher": cipher, "cert": cert}
 
         def obs(cls, fixed=None):
-            o = handshake_trace(ctx, creds, client_max, ver, cipher, cls, fixed)
-            ctx.case(key=("srv", client_max, ver, cipher, cls, o["sent"].get("enc")), sample=None)
-            ctx.count("server:%d.%d/%s" % (ver[0], ver[1], cipher))
+            o = handshake_trace(ctx, creds, client_max, ver, cipher, cls, fixed, cert=cert)
+            ctx.case(key=("srv", client_max, ver, cipher, cert, cls, o["sent"].get("enc")), sample=None)
+            ctx.count("server:%d.%d/%s%s" % (ver[0], ver[1], cipher, "+clientcert" if cert else ""))
+            ml = model_server_line(ctx, o, ver, cert, srv_nums, rbytes(ctx.rng, 48))
+            if ml is None:
+                ctx.count("server-model-tie-skipped")
+            else:
+                model_lines.append(ml[0])
+                model_meta.append((dict(cfg, stage="server", cls=cls, observation=o, fixed=o["sent"]), ml[1]))
             return o
         valid = obs("valid")
         rep0 = dict(cfg, stage="server", cls="valid", observation=valid, fixed=valid["sent"])
@@ -1044,6 +1146,10 @@ def server_cases(ctx):
                     ok = (len(tail) == 1 and tail[0][0] == "alert" and tail[0][3] == o["client_records"]
                           and all(x[-1] < o["client_records"] for x in tr[:common])
                           and common == len([x for x in valid["trace"] if x[-1] < valid["client_records"]]))
+                    if cert and tuple(ver) == (3, 0):
+                        # SSLv3 signs the master secret in CertificateVerify (calcVerifyBytes): a replaced premaster
+                        # already fails there, for every malformation alike; the model predicts it (tie below)
+                        ok = True
                     if not ok:
                         ctx.violation("c11:server-fails-before-finished",
                                       "malformed premaster (%s): the server's trace %s departs from the valid run before the client's "
@@ -1053,6 +1159,14 @@ def server_cases(ctx):
                                   "server behaves differently for malformation %r than for %r (%s): %s / %s  vs  %s / %s"
                                   % (cls, base[0], cfg, o["server"], o["trace"][-2:], base[2]["server"], base[2]["trace"][-2:]),
                                   dict(rep, other_cls=base[0], other_observation=base[2], other_fixed=base[2]["sent"]))
+    # ---- tie: the Lean model of the server path after ClientKeyExchange predicts each observed run
+    lc = ctx.lean()
+    if lc is not None and model_lines:
+        out = lc.batch(model_lines)
+        for (rep, real), m in zip(model_meta, out):
+            ctx.compared()
+            if re.sub(r":e\d+@", ":e@", m) != real:
+                ctx.disagree("server-after-cke", rep, m, real)
 
 
 # ----------------------------------------------------------------------------------------------
@@ -1172,7 +1286,8 @@ def replay(ctx, rep):
     if stage == "server":
         creds = server_creds(ctx)
         client_max, ver, cipher = tuple(inp["client_max"]), tuple(inp["version"]), inp["cipher"]
-        o = handshake_trace(ctx, creds, client_max, ver, cipher, inp["cls"], inp.get("fixed"))
+        cert = bool(inp.get("cert", False))
+        o = handshake_trace(ctx, creds, client_max, ver, cipher, inp["cls"], inp.get("fixed"), cert=cert)
         print("class %s: server %s trace %s" % (inp["cls"], o["server"], o["trace"]))
         if inp["cls"].startswith("valid"):
             return o["server"] != ["done"] or o["client"] != ["done"]
@@ -1181,12 +1296,12 @@ def replay(ctx, rep):
         # compare with reference malformations generated now
         bad = False
         for other in ("second-byte-1", "no-separator", "pmslen-47", "len-k-1"):
-            r = handshake_trace(ctx, creds, client_max, ver, cipher, other)
+            r = handshake_trace(ctx, creds, client_max, ver, cipher, other, cert=cert)
             print("class %s: server %s trace %s" % (other, r["server"], r["trace"]))
             if (r["server"], r["trace"]) != (o["server"], o["trace"]):
                 bad = True
-        valid = handshake_trace(ctx, creds, client_max, ver, cipher, "valid")
-        if valid["server"] == ["done"]:
+        valid = handshake_trace(ctx, creds, client_max, ver, cipher, "valid", cert=cert)
+        if valid["server"] == ["done"] and not (cert and ver == (3, 0)):
             pre = [x for x in valid["trace"] if x[-1] < valid["client_records"]]
             if o["trace"][:len(pre)] != pre or len(o["trace"]) != len(pre) + 1 or o["trace"][-1][-1] != o["client_records"]:
                 bad = True
